@@ -392,14 +392,22 @@ fn rule_perform_math_ops(
     available_in: &AvailableValueMap<Register>,
 ) {
     if let Some(reg) = node.writes_to() {
+        // The zero register always reads as the constant zero
+        let operand = |reg: &Register| {
+            if reg.is_const_zero() {
+                Some(AvailableValue::Constant(0))
+            } else {
+                available_in.get(reg).cloned()
+            }
+        };
         let lhs = match node {
-            ParserNode::Arith(expr) => available_in.get(expr.rs1.get()).cloned(),
-            ParserNode::IArith(expr) => available_in.get(expr.rs1.get()).cloned(),
+            ParserNode::Arith(expr) => operand(expr.rs1.get()),
+            ParserNode::IArith(expr) => operand(expr.rs1.get()),
             _ => None,
         };
 
         let rhs = match node {
-            ParserNode::Arith(expr) => available_in.get(expr.rs2.get()).cloned(),
+            ParserNode::Arith(expr) => operand(expr.rs2.get()),
             ParserNode::IArith(expr) => Some(AvailableValue::Constant(expr.imm.get().value())),
             _ => None,
         };
